@@ -11,7 +11,7 @@ ASSUMPTIONS = [
     'generated inputs stay inside etc/schema/*.json (priority/rank 0..100, non-negative demand, adjustment <= rank)',
 ]
 
-BUDGET = {'quick': (260, 30.0), 'thorough': (5000, 280.0)}
+BUDGET = {'quick': (900, 30.0), 'thorough': (5000, 280.0)}
 
 
 def make_run(props, tweak=None):
